@@ -201,6 +201,14 @@ def check_tools(ctx):
     jn = [(argkey(e, 2), argkey(e, 3)) for b, i, e in find_calls(ds, "ldb_join") if argkey(e, 0) == "path"]
     ctx.check(sorted(jn) == [("dbname", "name"), ("subdir", "name")], "T5-destroy-scope", "paths", ds.name, ds.loc,
               "removed paths are dbname/<listed name> and dbname/lost/<listed name>", "destroy paths built from %s" % jn)
+    # the `lost` sub-directory is emptied only if it is not a database of its own (no CURRENT inside *it*)
+    gc2 = [(b, i, e) for (b, i, e) in find_calls(ds, "ldb_get_children") if argkey(e, 0) == "subdir"]
+    ctx.require(len(gc2) == 1, "ldb_destroy: listing of the lost/ sub-directory not found")
+    a2 = xgraph(P, ds).must_at(gc2[0][0], gc2[0][1])
+    ctx.check(holds(a2, ("!=", "re:ldb_current_filename\\(path, .*, subdir\\)#\\d+", "0")) and
+              holds(a2, ("==", "re:ldb_file_exists\\(path\\)#\\d+", "0")), "T5-destroy-scope", "lost-dir-is-not-a-database", ds.name,
+              site(ds, gc2[0][2]), "lost/ is emptied only if lost/CURRENT does not exist",
+              "lost/ is emptied without checking its own CURRENT; facts %s" % fmt_atoms(a2))
     nm = sorted(key(e.get("init")) for b, i, e in ds.events("decl") if e["n"] == "name")
     ctx.check(nm == ["files[i]", "subfiles[i]"], "T5-destroy-scope", "names", ds.name, ds.loc,
               "names come from the two directory listings", "names come from %s" % nm)
@@ -266,6 +274,28 @@ def check_lock_primitive(ctx):
                         "a file already locked by this process is refused")
         ctx.check(const_val(fl[0][2]["a"][1]) == 1, "T1-lockfile", "flock-exclusive", lf.name, site(lf, fl[0][2]),
                   "ldb_flock(fd, 1) takes the lock", "ldb_flock called with %s" % key(fl[0][2]["a"][1]))
+    # the lookup in the process-wide table and the registration are one critical section of the table's mutex:
+    # fcntl locks are per process, so a second thread that passes the lookup before the first registered also
+    # gets the OS lock
+    LOCKF, UNLOCKF = "ldb_mutex_lock", "ldb_mutex_unlock"
+    tbl = lambda e: is_call(e, ("ldb_rb_tree_put", "rb_set_put", "ldb_rb_set_put", "ldb_rb_tree_has", "rb_set_has", "ldb_rb_set_has")) and \
+        "file_set" in (argkey(e, 0) or "")
+
+    def step_s(q, e, st, b, i):
+        if q == BAD:
+            return q
+        ph, held = q
+        if is_call(e, LOCKF) and "file_mutex" in (argkey(e, 0) or ""):
+            return (ph, True)
+        if is_call(e, UNLOCKF) and "file_mutex" in (argkey(e, 0) or ""):
+            return (2 if ph == 1 else ph, False)
+        if tbl(e):
+            if not held or ph == 2:
+                return BAD
+            return (1, held)
+        return q
+    check_automaton(ctx, "T3d-lockfile-section", "table-check-and-register", lf, (0, False), step_s, None,
+                    "the in-process lock table is consulted and updated in one critical section of its mutex")
     # POSIX record locks die when the process closes ANY descriptor of the file: once the in-process
     # table says this process already holds the lock, no descriptor of that file may be closed
     check_automaton(ctx, "T1-lockfile", "no-close-while-held-in-process", lf, 0, step_f2, edge_f2,
